@@ -15,7 +15,7 @@ Proof. unfold bump. cbn. intros H. apply in_map_iff in H. destruct H as (m & E &
     a crash right after it only skips a UID *)
 Lemma Inv_bump s mb : Inv s -> Inv (bump s mb).
 Proof.
-  intros [I1 I2 I3 I4 I5 I6 I7 I8 I9].
+  intros [I1 I2 I3 I4 I5 I6 I7 I8 I9 I10].
   assert (En : map mb_name (mboxes (bump s mb)) = map mb_name (mboxes s)).
   { unfold bump. cbn. rewrite map_map. apply map_ext. intros; apply bump_row_name. }
   assert (Ei : map mb_id (mboxes (bump s mb)) = map mb_id (mboxes s)).
@@ -36,18 +36,53 @@ Proof.
   - intros m' e Hm' He En' Ev. apply in_bump_inv in Hm'. destruct Hm' as (m & Hm & ->).
     rewrite bump_row_name in En'. rewrite bump_row_validity in Ev.
     pose proof (I9 m e Hm He En' Ev). rewrite bump_row_next. destruct (mb_id m =? mb); lia.
+  - exact I10.
 Qed.
 
 (** the three store states a crash can leave inside AddMessageToMailbox, and
     the state after the message rows, all satisfy the UID rules *)
 Lemma add_message_crash_states s msg mb fl m :
-  Inv s -> find_id s mb = Some m ->
+  Inv s -> find_id s mb = Some m -> msg < next_msg s ->
   Inv (fst (store_message s)) /\ Inv (bump s mb) /\ Inv (fst (add_message s msg mb fl)).
 Proof.
-  intros I F. split; [|split].
+  intros I F Hm. split; [|split].
   - eapply Inv_core_eq; [apply store_message_core|exact I].
   - now apply Inv_bump.
-  - destruct (add_message_good s msg mb fl m I F) as (s2 & E & G & _). rewrite E. apply G.
+  - destruct (add_message_good s msg mb fl m I F Hm) as (s2 & E & G & _). rewrite E. apply G.
+Qed.
+
+(** ---- the UIDVALIDITY allocator gap (raven da328ca) ------------------------------------ *)
+
+Lemma fold_max_nonneg l : 0 <= fold_right Z.max 0 l.
+Proof. induction l; simpl; lia. Qed.
+
+Lemma fold_max_app l x : fold_right Z.max 0 (l ++ [x]) = Z.max (fold_right Z.max 0 l) (Z.max x 0).
+Proof. induction l as [|y l IH]; simpl; [lia|]. rewrite IH. lia. Qed.
+
+(** A crash between the allocator statement and the INSERT of
+    CreateMailboxPerUser: no mailbox, no link, no log entry changed; only the
+    high-water mark of the stamps moved up to the stamp that was handed out —
+    so the next mailbox created gets a strictly larger UIDVALIDITY (a skipped
+    stamp, like the skipped UID of the uid_next gap) — and the UID rules hold. *)
+Lemma validity_gap_state d n t :
+  ready d = true ->
+  let c := run_steps d (firstn 1 (create_steps (d_st d) n t)) in
+  mboxes (d_st c) = mboxes (d_st d) /\ links (d_st c) = links (d_st d) /\ glog (d_st c) = glog (d_st d) /\
+  d_msgs c = d_msgs d /\ d_subs c = d_subs d /\
+  vhigh (d_st c) = next_validity (d_st d) t /\
+  (forall t', next_validity (d_st d) t < next_validity (d_st c) t') /\
+  (Inv (d_st d) -> Inv (d_st c)).
+Proof.
+  intros Hr. destruct (ready_schema2 d Hr) as (F & S2 & _).
+  unfold create_steps, run_steps. cbn [firstn fold_left exec]. rewrite F, S2. cbn [andb d_st with_st d_msgs d_subs].
+  assert (V : vhigh (alloc_validity (d_st d) n t) = next_validity (d_st d) t).
+  { unfold vhigh, alloc_validity. cbn [gused]. rewrite map_app. cbn [map snd]. rewrite fold_max_app.
+    unfold next_validity, vhigh. pose proof (fold_max_nonneg (map snd (gused (d_st d)))). lia. }
+  do 5 (split; [reflexivity|]). split; [exact V|]. split.
+  - intros t'. unfold next_validity at 2. rewrite V. lia.
+  - intros [I1 I2 I3 I4 I5 I6 I7 I8 I9 I10]. constructor; cbn [alloc_validity mboxes links glog gused next_msg]; auto.
+    + intros e He. apply in_or_app. left. now apply I6.
+    + intros m Hm. apply in_or_app. left. now apply I7.
 Qed.
 
 (** any subset of the per-row DELETEs of an EXPUNGE / CLOSE *)
